@@ -303,6 +303,64 @@ def rule_finite(ctx):
         rr.fail(key_of(cn, 'no isfinite test'),
                 'convert_nan does not test finiteness', file=cn.module.rel,
                 function='convert_nan', line=cn.lineno)
+    # every value convert_nan hands back has passed the finiteness test
+    rr.instances += 1
+    leaves = []
+
+    def is_fin(e):
+        return isinstance(e, ast.Call) and ctx.cg.resolve_name_expr(
+            cn, e.func) in (('ext', 'numpy.isfinite'), ('ext', 'math.isfinite'))
+
+    def expr_leaves(e, conds):
+        if isinstance(e, ast.IfExp):
+            expr_leaves(e.body, conds + [(e.test, True)])
+            expr_leaves(e.orelse, conds + [(e.test, False)])
+        else:
+            leaves.append((e, conds))
+
+    def walk_stmts(stmts, conds):
+        for st in stmts:
+            if isinstance(st, ast.Return) and st.value is not None:
+                expr_leaves(st.value, conds)
+            elif isinstance(st, ast.If):
+                walk_stmts(st.body, conds + [(st.test, True)])
+                walk_stmts(st.orelse, conds + [(st.test, False)])
+                # statements after an `if` that returns are reached with the
+                # test false; not tracked: such a leaf simply has no guard
+            elif isinstance(st, ast.Try):
+                walk_stmts(st.body, conds)
+                for h in st.handlers:
+                    walk_stmts(h.body, [])  # the test may not have completed
+                walk_stmts(st.orelse, conds)
+                walk_stmts(st.finalbody, [])
+            elif isinstance(st, (ast.For, ast.While, ast.With)):
+                walk_stmts(st.body, conds)
+
+    walk_stmts(cn.body, [])
+    dflt = set(cn.params[1:]) | set(cn.kwonly)
+    unguarded = []
+    for e, conds in leaves:
+        if isinstance(e, ast.Name) and e.id in dflt:
+            continue
+        if isinstance(e, ast.Subscript) and 'errors' in norm_src(e.value):
+            continue
+        if any(pos and is_fin(t) for t, pos in conds):
+            continue
+        unguarded.append(e)
+    if not leaves:
+        raise AnalysisError('convert_nan: no return value recognised')
+    if unguarded:
+        e = unguarded[0]
+        rr.fail(key_of(cn, 'returns a value that did not pass isfinite'),
+                'convert_nan returns `%s` on a path where numpy.isfinite has '
+                'not answered True: a non-finite number, or a non-numeric '
+                'object on which the test raised, reaches the cell instead of '
+                'the error the caller substitutes' % norm_src(e),
+                file=cn.module.rel, function='convert_nan', line=e.lineno)
+    else:
+        rr.ok('convert_nan returns its argument only where isfinite is true, '
+              'otherwise the default error (%d return leaves)' % len(leaves),
+              cn.module.rel)
     exempt = {'MUNIT': 'result is an identity matrix object, not a float',
               '_XLFN.MUNIT': 'alias of MUNIT'}
     for reg in ctx.registry.all():
